@@ -361,6 +361,34 @@ theorem conflictsWith_examples :
     conflictsWith [(0, 0), (1, 1)] [(0, 0), (1, 1)] = true := by
   decide
 
+/-! ## 15. Only an unescaped `>` ends a group name -/
+
+/-- An ESCAPED `>` (`\u003E`, `\u{3e}`) inside a group name is an error (all 64 flag combinations; ES
+early error: the CharacterValue of a `\u` escape in a name must be an IdentifierPartChar).  The name
+loop used to resolve the escape first and test `c == '>'` afterwards, so `(?<a\u003E)` was the group
+`(?<a>)` and `(?<a\u{3e}b)` the group `a` containing `b`; the same in `\k<…>`. -/
+theorem escaped_gt_in_group_name_rejected : ∀ fl : Flags,
+    rejected (parse (pat! "(?<a\\u003E)") fl) = true ∧
+    rejected (parse (pat! "(?<a\\u{3e}b)") fl) = true ∧
+    rejected (parse (pat! "(?<a>)\\k<a\\u003e") fl) = true ∧
+    rejected (parse (pat! "(?<\\u003Ea>)") fl) = true := by
+  all_flags
+
+/-- Contrast: an unescaped `>` ends the name; other escaped name characters are fine. -/
+theorem group_name_escapes_accepted : ∀ fl : Flags,
+    accepted (parse (pat! "(?<a>)\\k<a>") fl) = true ∧
+    accepted (parse (pat! "(?<a\\u0062>)\\k<ab>") fl) = true ∧
+    accepted (parse (pat! "(?<\\u{61}b>)\\k<a\\u{62}>") fl) = true := by
+  all_flags
+
+/-- The model's name loop on `a\u003E)` after a first character: no name. -/
+theorem nameLoop_escaped_gt :
+    (match nameLoop 20 (pat! "\\u003E)") [0x61] (pat! "a\\u003E)") with
+      | .ok (none, _) => true | _ => false) = true ∧
+    (match nameLoop 20 (pat! ">)") [0x61] (pat! "a>)") with
+      | .ok (some [0x61], [0x29]) => true | _ => false) = true := by
+  decide +kernel
+
 end Regress.ParseRegressions
 
 #print axioms Regress.ParseRegressions.quantified_word_boundary_rejected
@@ -389,3 +417,6 @@ end Regress.ParseRegressions
 #print axioms Regress.ParseRegressions.duplicate_name_in_two_groups_rejected
 #print axioms Regress.ParseRegressions.duplicate_name_in_alternatives_accepted
 #print axioms Regress.ParseRegressions.conflictsWith_examples
+#print axioms Regress.ParseRegressions.escaped_gt_in_group_name_rejected
+#print axioms Regress.ParseRegressions.group_name_escapes_accepted
+#print axioms Regress.ParseRegressions.nameLoop_escaped_gt
